@@ -364,6 +364,19 @@ class _ColFlow(Flow):
         if isinstance(st, (ast.FunctionDef, ast.AsyncFunctionDef, ast.ClassDef)):
             return s
         s = self.copy(s)
+        # view binding:  v = pt.col[K]   /   a, b = col[K1], col[K2]   - the local is a live view of the column and the code may fill the column THROUGH it
+        # (v[:] = ..., np.multiply(.., out=v), v.fill(..), v += ..).  Binding is not a read of the contents, and from here on the column counts as written.
+        if isinstance(st, ast.Assign) and all(isinstance(t, (ast.Name, ast.Tuple)) for t in st.targets):
+            vals = st.value.elts if isinstance(st.value, ast.Tuple) else [st.value]
+            if vals and all(isinstance(v, ast.Subscript) and self.accessor_table(v.value, s) and not isinstance(v.slice, ast.Tuple) for v in vals):
+                for v in vals:
+                    tv = self.accessor_table(v.value, s)
+                    c = self.col(v.slice)
+                    if c:
+                        s["tabs"][tv] = s["tabs"][tv] | {c}
+                    else:
+                        s["top"].add(tv)
+                return s
         self.reads(st.value if isinstance(st, (ast.Assign, ast.AugAssign, ast.AnnAssign, ast.Expr, ast.Return)) and getattr(st, "value", None) is not None else st, s)
         self.effects(st, s)
         if not isinstance(st, ast.Return):
@@ -384,6 +397,12 @@ class _ColFlow(Flow):
                                 s["tabs"][tv1] = s["tabs"][tv1] | {c1}
                             else:
                                 s["top"].add(tv1)
+                if isinstance(t, ast.Subscript) and isinstance(t.value, ast.Name) and t.value.id in s["dicts"]:
+                    # res[K] = ...   on a tracked result dict
+                    c0 = self.col(t.slice)
+                    if c0:
+                        s["dicts"][t.value.id] = s["dicts"][t.value.id] | {c0}
+                    continue
                 if isinstance(t, ast.Subscript) and self.accessor_table(t.value, s):
                     tv = self.accessor_table(t.value, s)
                     keyn = t.slice.elts[1] if isinstance(t.slice, ast.Tuple) and len(t.slice.elts) == 2 else t.slice
